@@ -35,6 +35,14 @@ def _walk_own(fnode):
 
 def find_spec(interp, frame, node):
     ordinal = loop_ordinal(frame.info, node)
+    if frame.info.filename.endswith('functools_model.py'):
+        # library model: the invariant belongs to the call site (the nearest repository frame)
+        for fr in reversed(interp.frame_stack):
+            if not fr.info.filename.endswith('functools_model.py'):
+                key = 'reduce#%d' % fr.reduce_site
+                spec = interp.reg.loops_by_key.get((fr.info.filename, fr.info.qualname, key))
+                return spec, key
+        return None, ordinal
     return interp.reg.loops_by_key.get((frame.info.filename, frame.info.qualname, ordinal)), ordinal
 
 
@@ -82,6 +90,14 @@ def _param_names(pred):
 
 def _env_of(interp, frame, extra):
     env = {}
+    if frame.info.filename.endswith('functools_model.py'):
+        # library model: the call site's names are visible to the invariant
+        for fr in reversed(interp.frame_stack):
+            if not fr.info.filename.endswith('functools_model.py'):
+                for d in fr.enclosing:
+                    env.update(d)
+                env.update(fr.locals)
+                break
     for d in frame.enclosing:
         env.update(d)
     env.update(frame.locals)
@@ -94,7 +110,7 @@ def _havoc(interp, frame, spec, modified_names, tag):
     for name in modified_names:
         ty = spec.modifies.get(name)
         if ty is None:
-            raise Unsupported('loop %s#%d assigns %r which is not declared in modifies'
+            raise Unsupported('loop %s#%s assigns %r which is not declared in modifies'
                               % (spec.qname, spec.ordinal, name))
         if ty == 'local':      # a loop-local temporary: dead at loop head
             frame.locals.pop(name, None)
@@ -123,7 +139,7 @@ def _check_frame(spec, node):
     declared = set(spec.modifies.keys())
     for a in attrs | mutated:
         if a not in declared and ('@' + a) not in declared:
-            raise Unsupported('loop %s#%d mutates %r which is not declared in modifies' % (spec.qname, spec.ordinal, a))
+            raise Unsupported('loop %s#%s mutates %r which is not declared in modifies' % (spec.qname, spec.ordinal, a))
     return (names - target_names), target_names
 
 
@@ -136,12 +152,12 @@ def exec_while(interp, node, frame):
     st = interp.st
     fname = interp.current_function_name()
     modified, _ = _check_frame(spec, node)
-    label = '%s : loop#%d' % (fname, ordinal)
+    label = '%s : loop#%s' % (fname, ordinal)
     # (1) invariant on entry
     inv0 = interp.truth(_call_pred(interp, spec.invariant, _env_of(interp, frame, {})))
     st.oblige(label + ' invariant[entry]', inv0, {'kind': 'loop-entry'})
     which = st.choose(2)
-    _havoc(interp, frame, spec, modified, 'L%d' % ordinal)
+    _havoc(interp, frame, spec, modified, 'L%s' % ordinal)
     inv = interp.truth(_call_pred(interp, spec.invariant, _env_of(interp, frame, {})))
     st.assume(inv)
     guard = interp.eval(node.test, frame)
@@ -232,7 +248,7 @@ def _for_symbolic(interp, node, frame, src):
         raise Unsupported('for loop over symbolic-length sequence in %s (line %d) needs an invariant'
                           % (frame.info.qualname, node.lineno))
     fname = interp.current_function_name()
-    label = '%s : loop#%d' % (fname, ordinal)
+    label = '%s : loop#%s' % (fname, ordinal)
     modified, _targets = _check_frame(spec, node)
     enum_start = None
     it_cell = None
@@ -254,7 +270,7 @@ def _for_symbolic(interp, node, frame, src):
     inv0 = interp.truth(_call_pred(interp, spec.invariant, env(start)))
     st.oblige(label + ' invariant[entry]', inv0, {'kind': 'loop-entry'})
     which = st.choose(2)
-    tag = 'L%d' % ordinal
+    tag = 'L%s' % ordinal
     _havoc(interp, frame, spec, modified, tag)
     if which == 0:
         i = st.fresh_int('_i@' + tag)
@@ -288,6 +304,9 @@ def reduce_slist(interp, f, xs, initial):
     """functools.reduce over a symbolic-length sequence: interpreted from a Python model
     with a loop invariant attached to the *call site* (spec keyed on the model function)."""
     from .pymodels import functools_model
+    fr, k = models._count_reduce_site(interp)
+    if fr is not None:
+        fr.reduce_site = k
     if initial:
         return interp.call(functools_model.reduce_with_initial, [f, xs, initial[0]], {})
     return interp.call(functools_model.reduce_no_initial, [f, xs], {})
